@@ -63,13 +63,23 @@ theorem fixed_chunks (L : Nat) (hL : 0 < L) (rs : List (List UInt8)) (h : ∀ r 
   fixedChunks_flatten L hL rs h fuel hf
 
 -- OBLIGATION: PysparklingVerif.C08.var_chunks
-/-- binaryRecords with a struct length prefix: for any prefix codec with `unpack (pack n) = n` and a
-non-empty fixed-size prefix, decoding the framed stream returns exactly the original records -/
-theorem var_chunks (pl : Nat) (hpl : 0 < pl) (pack : Nat → List UInt8) (unpack : List UInt8 → Nat)
-    (hlen : ∀ n, (pack n).length = pl) (hinv : ∀ n, unpack (pack n) = n)
-    (rs : List (List UInt8)) (fuel : Nat) (hf : rs.length < fuel) :
+/-- binaryRecords with a struct length prefix: for any prefix codec that, on lengths below its capacity `B`
+(e.g. `256 ^ pl`), produces `pl` bytes and satisfies `unpack (pack n) = n`, and records shorter than `B`,
+decoding the framed stream returns exactly the original records (empty records included) -/
+theorem var_chunks (pl : Nat) (hpl : 0 < pl) (B : Nat) (pack : Nat → List UInt8) (unpack : List UInt8 → Nat)
+    (hlen : ∀ n, n < B → (pack n).length = pl) (hinv : ∀ n, n < B → unpack (pack n) = n)
+    (rs : List (List UInt8)) (hr : ∀ r ∈ rs, r.length < B) (fuel : Nat) (hf : rs.length < fuel) :
     varChunks pl unpack (frame pack rs) fuel = rs :=
-  varChunks_frame pl hpl pack unpack hlen hinv rs fuel hf
+  varChunks_frame pl hpl B pack unpack hlen hinv rs hr fuel hf
+
+/-- a one-byte length prefix (`struct` format `B`): capacity 256 -/
+def pack1 (n : Nat) : List UInt8 := [UInt8.ofNat n]
+def unpack1 (l : List UInt8) : Nat := (l.headD 0).toNat
+
+/-- the hypotheses of `var_chunks` are met by the one-byte prefix, and the theorem applies to records that include
+an empty one at the end -/
+example : varChunks 1 unpack1 (frame pack1 [[1, 2, 3], [], [9], []]) 5 = [[1, 2, 3], [], [9], []] :=
+  var_chunks 1 (by decide) 256 pack1 unpack1 (by intro n _; rfl) (by intro n h; simp [unpack1, pack1]; omega) _ (by decide) 5 (by decide)
 
 -- non-vacuity
 example : splitlines (encodePart ["a".toList, [], "c d".toList]) = ["a".toList, [], "c d".toList] := by decide
